@@ -193,6 +193,31 @@ def c13(ctx):
     return merged
 
 
+def c24(ctx):
+    import annexf
+    r = ctx.harness(extra=["--annexf"])
+    merged = ctx.chk.merge([r])
+    path = os.path.join(ctx.work, "json.jsonl")
+    rep = annexf.validate_file(path)
+    os.remove(path)
+    merged["counters"]["documents_judged_by_annexf_validator"] = rep["records"]
+    merged["counters"]["elements_in_documents"] = rep["elements"]
+    seen = {}
+    for v in rep["violations"]:
+        key = "annexf|%s" % annexf.classify(v["errors"][0])
+        if key in seen:
+            seen[key]["count"] += 1
+            continue
+        rp = {"id": v.get("id"), "json": v.get("json")}
+        rp.update(v.get("ctx") or {})
+        seen[key] = {"key": key, "what": "Annex F validator rejects the document: %s" % "; ".join(v["errors"][:3]),
+                     "replay": rp, "count": 1}
+    merged["violations"] += list(seen.values())
+    if not ctx.replay and rep["records"] < 1000:
+        merged["inconclusive"] = "only %d documents reached the Annex F validator" % rep["records"]
+    return merged
+
+
 def c02(ctx):
     r = ctx.harness()
     merged = ctx.chk.merge([r])
@@ -219,4 +244,8 @@ PROPS = {
     "C09": {"run": legs("tables", "files"), "level": "exploration"},
     "C10": {"run": c10, "level": "exploration"},
     "C13": {"run": c13, "level": "exploration"},
+    "C23": {"run": simple, "level": "exploration"},
+    "C24": {"run": c24, "level": "exploration"},
+    "C31": {"run": simple, "level": "exploration"},
+    "C34": {"run": simple, "level": "fault_enumeration"},
 }
